@@ -2,6 +2,7 @@
 installed Timeslot class).  Top-level postconditions are the property text; helper contracts and
 invariants are derived from the code."""
 from datetime import timedelta
+from pyvc.specrt import *  # noqa: F401,F403
 from pyvc.api import contract, spec
 
 M = "aw_transform.filter_period_intersect."
